@@ -6,18 +6,27 @@ THEOREMS = ['c07_accept_iff_grammar', 'c07_rejects_everything_else', 'c07_never_
             'c07_parse_print', 'c07_server_rule_same', 'c07_is_valid_is_grammar', 'c07_create_spec', 'c07_print_injective']
 
 
+SERVER_THEOREMS = ['c07_server_refuses_invalid_names', 'c07_names_do_not_interfere']
+
+
 def run(tier, seed, replay=None):
     check = Check('C07', tier, seed)
     prove(check, 'theories/Props_C07.v', THEOREMS)
-    differential(check, 'C07', 'topic', 'c07', tier, seed, replay, 1500, 100000, extract_between_bars)
+    prove(check, 'theories/Props_C07_server.v', SERVER_THEOREMS)
+    head = open(replay).read(4000) if replay else ''
+    if not replay or 'case srv ' not in head:
+        differential(check, 'C07', 'topic', 'c07', tier, seed, replay, 1500, 100000, extract_between_bars)
+    if not replay or 'case srv ' in head:
+        # server side: names arriving on the wire, and isolation of confusable names (the srv engine of C11, judged for C07 only)
+        differential(check, 'C07', 'srv', 'srv', tier, seed, replay, 2, 20, extract_between_bars, sample_lines=10, timeout=1800, driver_extra=['c07'], shards=8)
     check.coverage['rule'] = ('strings assembled around the grammar: components of length {0,1,2,3,4,63,64,65,66,130,random} over [A-Za-z0-9_-] with an '
                               'optional odd character (separators, controls, 2/3/4-byte UTF-8, U+203F, ZWJ, combining marks, non-ASCII digits) at a random '
                               'position, reserved-word variants, 16 shapes of slash placement, plus (namespace, topic) pairs for create(); one seeded PRNG; '
-                              'non-trivial = distinct input line')
+                              'non-trivial = distinct input line ; srv: raw peers register on valid / invalid / reserved names over loopback QUIC (first reply compared with the model and the grammar), then five confusable names (swapped parts, shifted split point, shared namespace, shared topic) carry concurrent traffic and every subscriber must see exactly its own')
     check.coverage['trusted_base'] = TRUSTED_BASE_COMMON + [
         'modelled, not verified: the regex crate on the translated fragment (anchored sequence of literals and bounded class repetitions; matcher proved sound and complete in P_Regex.v), str::starts_with, str::get(1..) - validated by the differential',
         'strings are modelled as lists of Unicode scalar values; UTF-8 enters only through str::get(1..) (utf8_len)',
-        'server-side enforcement and cross-topic isolation over QUIC are covered by the net scenario of this check when present; the theorem part covers is_valid = the same rule and injectivity of the key',
+        'server side: the registration path is the program translated from server/src/server.rs (see C11); HashMap<TopicName, _> keyed by the derived Hash/Eq of (namespace, topic) is represented by name identities and exercised by the isolation scenario',
     ]
     check.assumptions = ['"letters, digits" read as ASCII [A-Za-z0-9], as the source comment documents; lengths counted in characters']
     return check.finish()
